@@ -210,9 +210,9 @@ def arithN (op : String) (vs : List (Option Val)) : R Val :=
       else match dates vs, numbers (vs.filter (fun v => !isDate v)) with
         | [u], some ns => do
           match ← sumAll ns (.i 0) with
-          | .i n => pure (.date (u + n * 1000) none)
+          | .i n => mkDate (u + n * 1000)
           | .f m e =>
-            if (m * 1000) % pow2 e == 0 then pure (.date (u + m * 1000 / pow2 e) none)
+            if (m * 1000) % pow2 e == 0 then mkDate (u + m * 1000 / pow2 e)
             else unmodelled
         | _, _ => .error .opFail
 
@@ -225,15 +225,15 @@ def intRes (f : Int → Int → Int) (x y : PyNum) (dflt : R Val) : R Val :=
 def dateMinus (u : Int) (y : Val) : R Val :=
   match y with
   | .date u' none => if (u - u') % 1000 == 0 then .ok (.int ((u - u') / 1000)) else unmodelled
-  | .int n => .ok (.date (u - n * 1000) none)
+  | .int n => mkDate (u - n * 1000)
   | .dbl m e =>
-    if (m * 1000) % pow2 e == 0 then .ok (.date (u - m * 1000 / pow2 e) none) else unmodelled
+    if (m * 1000) % pow2 e == 0 then mkDate (u - m * 1000 / pow2 e) else unmodelled
   | _ => .error .opFail
 
 /-- a binary operator on two numbers -/
 def numOp (op : String) (p q : PyNum) : R Val :=
   if op = "$subtract" then (p.sub q).toVal
-  else if op = "$divide" then (if q.isZero then .error .opFail else pyDivide p q)
+  else if op = "$divide" then (if q.isZero then .error .opFail else pyTrueDiv p q)
   else if op = "$mod" then
     (if q.isZero then .error .opFail else intRes Int.tmod p q (pyFmod p q))
   else if op = "$pow" then
